@@ -175,6 +175,30 @@ def ref_iou(s1, s2):
     return 0.0 if union == 0 else min(1.0, inter / union)
 
 
+def f30(spec, kind, message):
+    """Open-finding classifier F30: the shift law misses its 1e-9 tolerance by no more than 2e-12 x (largest coordinate of a buffered
+    geometry measured in buffers) - what GEOS' reduced-precision buffer fallback (12 significant digits of the coordinates it is given,
+    which buffer_geometry hands over in absolute position, scaled by 1/buffer) explains."""
+    if kind != "shift":
+        return False
+    import re
+
+    m = re.search(r": ([0-9.eE+-]+) -> ([0-9.eE+-]+)$", message)
+    if not m:
+        return False
+    diff = abs(float(m.group(1)) - float(m.group(2)))
+    tb, fb = spec["tb"], spec["fb"]
+    scale = 0.0
+    for g in (spec["g1"], spec["g2"]):
+        if g["type"] in BUFFERED and g["type"] != "TimeStamp":
+            b = ref_bounds(g["type"], g["coordinates"])
+            scale = max(scale, b[2] / tb if tb > 0 else 0.0, b[3] / fb if fb > 0 else 0.0)
+    return scale >= 1e3 and diff <= 2e-12 * scale
+
+
+KNOWN = {"F30-shift-variance-at-large-scaled-coordinates": f30}
+
+
 def in_f16_region(kind, b, tb, fb):
     """True when buffer_geometry works on coordinates >= 1e6 unit buffers for this geometry (C11 finding F16: GEOS snap-rounds there,
     the buffered extents are off by up to ~1e-3 buffers).  Time stamps / intervals / boxes are buffered arithmetically."""
